@@ -1,7 +1,7 @@
 """One function per property: check_Cxx(ctx)."""
 import sys
 sys.setrecursionlimit(20000)
-import random, re, subprocess, sys, hashlib
+import random, re, subprocess, sys, hashlib, tempfile
 from common import *
 from scenario import *
 from runner_checks import *
@@ -193,6 +193,10 @@ def check_C03(ctx):
         c = sc.copy(); c.mode = "inproc"
         shared.append(c)
     scens += shared
+    # a test that calls skip_test() more than once (in its context's setup and again in its body; twice in the body) is one skipped test
+    for mode in ("fork", "inproc"):
+        scens.append(Scen(S("top", items=[T("a", body=["P"]), T("twice", body=["S", "P", "S"]), T("b", body=["P", "F"])]), mode=mode))
+        scens.append(Scen(S("top", items=[S("db", items=[T("guarded", ctx=1, setup=["S"], body=["S", "P"]), T("other", ctx=1, setup=["S"], body=["P"])]), T("b", body=["P"])]), mode=mode))
     # a test that announces skip_test() and then ends abnormally (finding F02 in this property's terms: its exception is in no total)
     scens.append(Scen(S("top", items=[T("a", body=["P"]), T("v", body=["P", "S", "K11"]), T("b", body=["P", "F"])]), mode="fork"))
     reporters = ["text", "quiet", "cute", "libxml"]
@@ -1214,7 +1218,9 @@ def check_C13(ctx):
     # settings made outside any test - by a suite's fixture that the reporting process runs around a sub-suite, or by the
     # program before the run - must not make the modes differ either (not modelled: the three modes are compared with each other)
     outside = []
-    for setting, probe in (("G3", "D"), ("G2", "D"), ("ML", "CU"), ("MG", "CU")):
+    # (the last pair is not a framework setting but the program's own memory: what an enclosing suite's fixture wrote is there for the
+    # test in every mode, which shows that the same fixtures run around it)
+    for setting, probe in (("G3", "D"), ("G2", "D"), ("ML", "CU"), ("MG", "CU"), ("W", "R")):
         for shape in range(3):
             tests = [T(f"t{k}", body=[probe] + (["P"] if k % 2 else [])) for k in range(rng.choice([2, 3, 4]))]
             if shape == 0:
@@ -2598,6 +2604,8 @@ def check_C10(ctx):
             kind = rng.choice(list(ctors_int))
             a, e = rng.choice(B), rng.choice(B)
             if rng.random() < 0.1: at = str(a)       # the expression text is the value itself
+            elif rng.random() < 0.12:                # ... or only begins with it, or spells it another way: then it is an expression like any other
+                at = rng.choice([str(a) + rng.choice([" + zero", " % ten", "L", "u", " ", "x", ".0", "e0"]), hex(a) if a >= 0 else "-" + hex(-a), "0" + oct(abs(a))[2:], "+" + str(a), " " + str(a)])
             if rng.random() < 0.05: at = rng.choice(["true", "false"])
             ctor = ctors_int[kind]
             name = fld[(ctor, "name")]
@@ -2641,9 +2649,14 @@ def check_C10(ctx):
     for _ in range(sizes(ctx, 600, 8000)):
         ex = gen_text(rng) or "e"
         a, e = rng.choice(B), rng.choice(B)
-        leg.append((f"msgleg equal {hexs(ex.encode())} {hexs(str(a).encode())} {hexs(str(e).encode())}", fmts["assert_equal_"].replace("%ld", "%d") % (ex, e, a), [ex, str(a), str(e)]))
+        # (the exact text is required when the format can be read from the function the legacy macro ends in; the values and the
+        # expression always are)
+        def exact(fn, *vals):
+            try: return fmts[fn].replace("%ld", "%d") % vals
+            except (KeyError, TypeError, ValueError): return None
+        leg.append((f"msgleg equal {hexs(ex.encode())} {hexs(str(a).encode())} {hexs(str(e).encode())}", exact("assert_equal_", ex, e, a), [ex, str(a), str(e)]))
         s1, s2 = gen_text(rng, 15), gen_text(rng, 15)
-        leg.append((f"msgleg strequal {hexs(ex.encode())} {hexs(s1.encode())} {hexs(s2.encode())}", fmts["assert_string_equal_"] % (ex, s2, s1), [ex, s1, s2]))
+        leg.append((f"msgleg strequal {hexs(ex.encode())} {hexs(s1.encode())} {hexs(s2.encode())}", exact("assert_string_equal_", ex, s2, s1), [ex, s1, s2]))
         leg.append((f"msgmock {rng.choice(['equal', 'less', 'greater'])} {a} {e}", None, [str(a), str(e)]))
     # contents constraints: where the blocks differ (at any offset, the last byte too), and why a comparison cannot be made
     off_t = arr.get("at_offset", "\n\t\tat offset:\t\t\t[%d]"); cont_t = arr.get("expected_content", "\n\t\t\tactual value:\t\t[0x%02x]\n\t\t\texpected value:\t\t[0x%02x]")
@@ -3121,6 +3134,50 @@ def check_C09(ctx):
                           f"cgreen-runner <a relative path of {len(os.path.join(rel, name))} characters>/{name}", found_input=True, facts={"long_path": True})
             break
         shutil.rmtree(d, ignore_errors=True)
+    # ---- names the symbol grammar cuts (a test name containing `__`, or ending in `_`): whatever name the runner knows such a test by, a
+    # run that selects it executes it - also when it is the one test selected (the single-match path looks it up by name) ----
+    uname = "libunderscore_tests.so"
+    uitems = sorted([("Codec", "decodes__empty_input"), ("Codec", "rejects_"), ("Codec", "plain"), ("default", "ends__"), ("default", "other")])
+    srcs = []
+    for c, text in library_sources(uname, uitems).items():
+        src = os.path.join(libdir, f"libunderscore_{c}.c"); open(src, "w").write(text); srcs.append(src)
+    r = sh(["gcc", "-shared", "-fPIC", "-w", f"-I{REPO}/include"] + srcs + ["-o", os.path.join(libdir, uname), f"-L{impl['dir']}", "-lcgreen"])
+    if r.returncode != 0:
+        raise BuildError("test library: " + r.stdout[-1500:])
+    # ... and files in which no test can be discovered although they exist: a library stripped of its symbol table (its tests are still
+    # there and loadable), a file that is not a library at all - nothing is executed, so the run must not end with success
+    sname = "libstripped_tests.so"
+    shutil.copy(os.path.join(libdir, uname), os.path.join(libdir, sname))
+    sh(["strip", "--strip-all", os.path.join(libdir, sname)])
+    open(os.path.join(libdir, "libtext_tests.so"), "w").write("this is not a shared library\n")
+    def run_plain(args):
+        wd = tempfile.mkdtemp(dir=ctx.work); log = os.path.join(wd, "log")
+        for l in (uname, sname, "libtext_tests.so", "lib0_tests.so"): os.symlink(os.path.join(libdir, l), os.path.join(wd, l))
+        env = dict(os.environ); env["C09_LOG"] = log; env["LD_LIBRARY_PATH"] = impl["dir"]; env.pop("CGREEN_NO_FORK", None)
+        try:
+            r = subprocess.run([impl["runner"]] + args, cwd=wd, stdout=subprocess.PIPE, stderr=subprocess.PIPE, env=env, timeout=120); rc = r.returncode
+        except subprocess.TimeoutExpired:
+            rc = "timeout"
+        ex = sorted(open(log).read().split("\n")[:-1]) if os.path.exists(log) else []
+        shutil.rmtree(wd, ignore_errors=True)
+        return ex, rc
+    ushown = 0
+    for pat, want in ((None, [f"{uname}/{c}:{n}" for c, n in uitems]), ("Codec:decodes*", [f"{uname}/Codec:decodes__empty_input"]), ("Codec:rej*", [f"{uname}/Codec:rejects_"]),
+                      ("Codec:plain", [f"{uname}/Codec:plain"]), ("end*", [f"{uname}/default:ends__"]), ("Codec:*", [f"{uname}/Codec:{n}" for c, n in uitems if c == "Codec"])):
+        ex, rc = run_plain([uname] + ([pat] if pat else []))
+        if (ex != sorted(want) or rc != 0) and ushown < 4:
+            ushown += 1
+            ctx.violation(f"[C09] cgreen-runner {uname} {pat or ''}: executed {ex}, exit {rc}; selected are {sorted(want)}, expected success",
+                          f"# library with tests {uitems}\ncgreen-runner {uname} {pat or ''}", found_input=True, facts={"underscore_names": True})
+    for args, lab in (([sname], "a library stripped of its symbol table"), (["libtext_tests.so"], "a file that is not a library"), (["lib0_tests.so", sname], "a good library, then one stripped of its symbol table"),
+                      ([sname, "Codec:plain"], "a library stripped of its symbol table, with a pattern")):
+        ex, rc = run_plain(args)
+        nstripped = [e for e in ex if e.startswith(uname)]
+        if rc == 0 and not nstripped and ushown < 6:
+            ushown += 1
+            ctx.violation(f"[C09] cgreen-runner {' '.join(args)} ({lab}): no test of that file was executed, yet the run ends with exit status 0",
+                          f"# {lab}\ncgreen-runner {' '.join(args)}", found_input=True, facts={"undiscoverable": True})
+    ctx.coverage["underscore_and_undiscoverable_runs"] = 10
     ctx.oblige("correspondence C09: model and cgreen-runner execute the same tests and agree on the exit status", ndis == 0, f"{ndis} runs disagree")
     ctx.coverage["correspondence"] = {"cases": len(runs), "libraries": len(libs), "library_sizes": sorted({len(i) for _, i in libs}), "disagreements": ndis, "oracle_failures": nor}
     ctx.coverage["samples"] = [" ".join(o + [x for l, p in pr for x in ([l] + ([p] if p else []))]) for pr, o in runs[:3]]
